@@ -4,5 +4,5 @@ CONSTANTS
   ParamSet = {}
   MaxSteps = 100000
   MaxRuns = 100000
-INVARIANTS Progress ItemsOK AcfOK
+INVARIANTS Progress ItemsOK AcfOK CrossScope
 CHECK_DEADLOCK FALSE
